@@ -180,7 +180,7 @@ func judge(c *ctx, hits []vhit, cands sx.V, except []uint64, eligible []uint64, 
 	}
 	a := ask(c, sx.L(sx.N(zh.ReqVecSearch), cands, sx.Nums(except), el, sx.N(uint64(k))))
 	if _, bad := sx.IsErr(a); bad {
-		must(fmt.Errorf("model rejected the search request"))
+		mustH(fmt.Errorf("model rejected the search request"))
 	}
 	adm := a.L[1].L // all admissible candidates, best first: (doc key bits)
 	type code struct {
@@ -243,7 +243,7 @@ func judge(c *ctx, hits []vhit, cands sx.V, except []uint64, eligible []uint64, 
 func vecSpec(c *ctx, b zh.Batch) sx.V {
 	a := ask(c, sx.L(sx.N(zh.ReqSpecVec), b.Sx()))
 	if _, bad := sx.IsErr(a); bad {
-		must(fmt.Errorf("model rejected the vector spec request"))
+		mustH(fmt.Errorf("model rejected the vector spec request"))
 	}
 	return a
 }
@@ -532,7 +532,7 @@ func checkC15(c *ctx) {
 			spec, maps := specMerge(c, mc)
 			mv := ask(c, sx.L(sx.N(zh.ReqMergeVec), sx.List(vs), maps))
 			if _, bad := sx.IsErr(mv); bad {
-				must(fmt.Errorf("model rejected merge_vfields"))
+				mustH(fmt.Errorf("model rejected merge_vfields"))
 			}
 			nv := 0
 			for _, v := range mv.L {
